@@ -29,6 +29,7 @@ Inductive merr :=
   | PrePadEval                         (* "Can't evaluate how much to pad" *)
   | PrePadNonPositive                  (* "'pad' must get a positive ops-alignment" *)
   | PrePadUnaligned                    (* "'pad' requires the current address to be op-aligned" *)
+  | PrePadTooFar                       (* "'pad n' at address a needs k padding ops, which exceeds the w-bits memory-width" *)
   | PreSegmentEval                     (* "segment failed" *)
   | PreSegmentUnaligned                (* "segment ops must have a w-aligned address" *)
   | PreReserveEval                     (* "reserve failed" *)
@@ -258,7 +259,8 @@ Definition step_core (pd : pdict) (op : stmt) (c : core) : res core :=
       else let op_size := 2 * w in
            if negb (c_addr c mod op_size =? 0) then RErr PrePadUnaligned
            else let ops_to_pad := ((- c_addr c) / op_size) mod n in
-                ROk (push_op (set_addr c (c_addr c + ops_to_pad * op_size)) (LPadding ops_to_pad))))
+                if c_addr c + ops_to_pad * op_size >? 2 ^ w then RErr PrePadTooFar
+                else ROk (push_op (set_addr c (c_addr c + ops_to_pad * op_size)) (LPadding ops_to_pad))))
   | SSegment e _ =>
       rbind (of_eval_new (eval_new (subst_of pd) e)) (fun e' =>
       rbind (calc c e' PreSegmentEval) (fun a =>
@@ -496,7 +498,7 @@ Definition err_tag (e : merr) : N :=
   | PreUnknownMacro _ => 1 | PreDepth => 2 | PreDupLabel _ => 3 | PreRepTimes => 4 | PrePadEval => 5
   | PrePadNonPositive => 6 | PrePadUnaligned => 7 | PreSegmentEval => 8 | PreSegmentUnaligned => 9
   | PreReserveEval => 10 | PreReserveUnaligned => 11 | ExprBadLabelSwap => 12 | ExprRepArgs _ => 13
-  | ExprEvalNew _ => 14 | RawPy _ => 15 | KeyErrorMacro => 16
+  | ExprEvalNew _ => 14 | RawPy _ => 15 | KeyErrorMacro => 16 | PrePadTooFar => 17
   end%N.
 
 Inductive expected :=
@@ -559,3 +561,11 @@ Definition check_mcase (c : mcase) : N :=
                 end
             end in
   ((if b0 then 1 else 0) + (if b1 then 2 else 0) + (if b2 then 4 else 0) + (if b3 then 8 else 0) + (if b4 then 16 else 0))%N.
+
+(* namespace resolution cases: (current namespace, name as spelled, what the real parser made of it / None = syntax error) *)
+Definition check_ns (c : list string * string * option string) : bool :=
+  match base_name_to_ns_full_name (fst (fst c)) (snd (fst c)), snd c with
+  | NsName s, Some t => String.eqb s t
+  | NsTooManyDots _, None => true
+  | _, _ => false
+  end.
